@@ -13,6 +13,171 @@ mod probes {
     use serde_json::{json, Value};
     use std::collections::HashMap;
 
+    // ------------------------------------------------------------------------------- C01
+    mod c01 {
+        use super::*;
+        use crate::tokenization::*;
+        use crate::unicode::CS;
+
+        fn special(tokens: &[&str], fix: bool) -> SpecialConfig {
+            SpecialConfig {
+                pad: "<pad>".to_string(),
+                tokens: tokens.iter().map(|s| s.to_string()).collect(),
+                prefix: if fix { vec!["<bos>".to_string()] } else { vec![] },
+                suffix: if fix { vec!["<eos>".to_string()] } else { vec![] },
+            }
+        }
+
+        /// the text split at the occurrences of the special tokens (no token is a prefix of, or overlaps, another in the
+        /// configurations below, so "leftmost occurrence" is unambiguous)
+        fn segments<'a>(text: &'a str, tokens: &[&'a str]) -> Vec<(bool, &'a str)> {
+            let mut out = vec![];
+            let mut rest = text;
+            loop {
+                let next = tokens.iter().filter_map(|t| rest.find(t).map(|p| (p, *t))).min();
+                match next {
+                    None => { if !rest.is_empty() { out.push((false, rest)); } return out; }
+                    Some((p, t)) => {
+                        if p > 0 { out.push((false, &rest[..p])); }
+                        out.push((true, &rest[p..p + t.len()]));
+                        rest = &rest[p + t.len()..];
+                    }
+                }
+            }
+        }
+
+        /// byte tokenizer clause of C01 for one configuration and text
+        fn byte_tok(g: bool, code_points: bool, pad_to: bool, fix: bool, meta: bool) -> anyhow::Result<ByteTokenizer> {
+            let toks: Vec<&str> = if meta { vec!["<unk>", "<bos>", "<eos>", "<pad>", "<|sep|>", "[SEP]"] } else { vec!["<unk>", "<bos>", "<eos>", "<pad>"] };
+            ByteTokenizer::new(
+                ByteTokenizerConfig { use_graphemes: g, pad_to_multiple_of: if pad_to { Some(8) } else { None },
+                    groups: if code_points { ByteGroups::CodePoints } else { ByteGroups::Bytes }, aggregation: GroupAggregation::Mean },
+                special(&toks, fix),
+            )
+        }
+        pub fn check_byte(text: &str, g: bool, code_points: bool, pad_to: bool, fix: bool, meta: bool, ignore: bool) -> Result<(), String> {
+            check_byte_with(None, text, g, code_points, pad_to, fix, meta, ignore)
+        }
+        #[allow(clippy::too_many_arguments)]
+        fn check_byte_with(cached: Option<&ByteTokenizer>, text: &str, g: bool, code_points: bool, pad_to: bool, fix: bool, meta: bool, ignore: bool) -> Result<(), String> {
+            let toks: Vec<&str> = if meta { vec!["<unk>", "<bos>", "<eos>", "<pad>", "<|sep|>", "[SEP]"] } else { vec!["<unk>", "<bos>", "<eos>", "<pad>"] };
+            let what = format!("ByteTokenizer(graphemes={g}, code_point_groups={code_points}, pad_to_multiple_of={}, prefix/suffix={fix}, special tokens {toks:?}).tokenize({text:?}, ignore_special_tokens={ignore})", if pad_to { "8" } else { "none" });
+            let built;
+            let t = match cached { Some(t) => t, None => { built = byte_tok(g, code_points, pad_to, fix, meta).map_err(|e| format!("{what}: construction failed: {e}"))?; &built } };
+            let r = std::panic::catch_unwind(std::panic::AssertUnwindSafe(|| t.tokenize(text, ignore)));
+            let tok = match r { Err(_) => return Err(format!("{what} panics")), Ok(Err(e)) => return Err(format!("{what} failed: {e}")), Ok(Ok(t)) => t };
+            let mut inner: Vec<u32> = vec![];
+            if ignore {
+                inner.extend(text.bytes().map(|b| b as u32));
+            } else {
+                for (is_special, seg) in segments(text, &toks) {
+                    if is_special { inner.push(t.token_to_id(seg).ok_or(format!("{what}: token_to_id({seg:?}) is None"))?); }
+                    else { inner.extend(seg.bytes().map(|b| b as u32)); }
+                }
+            }
+            let mut want: Vec<u32> = t.prefix_token_ids().to_vec();
+            want.extend(&inner);
+            want.extend(t.suffix_token_ids());
+            if tok.token_ids != want {
+                return Err(format!("{what} = {:?}, expected prefix ids + UTF-8 bytes (special tokens as single ids) + suffix ids = {want:?}", tok.token_ids));
+            }
+            let back = t.de_tokenize(&inner, false).map_err(|e| format!("{what}: de_tokenize failed: {e}"))?;
+            if back != text { return Err(format!("{what}: decoding the ids gives {back:?}")); }
+            Ok(())
+        }
+
+        /// character tokenizer clause of C01
+        fn char_tok(g: bool, fix: bool) -> anyhow::Result<CharTokenizer> {
+            CharTokenizer::new(CharTokenizerConfig { use_graphemes: g, unk_token: "<unk>".to_string() }, special(&["<unk>", "<bos>", "<eos>", "<pad>"], fix))
+        }
+        pub fn check_char(text: &str, g: bool, fix: bool, ignore: bool) -> Result<(), String> { check_char_with(None, text, g, fix, ignore) }
+        fn check_char_with(cached: Option<&CharTokenizer>, text: &str, g: bool, fix: bool, ignore: bool) -> Result<(), String> {
+            let toks = ["<unk>", "<bos>", "<eos>", "<pad>"];
+            let what = format!("CharTokenizer(graphemes={g}, prefix/suffix={fix}).tokenize({text:?}, ignore_special_tokens={ignore})");
+            let built;
+            let t = match cached { Some(t) => t, None => { built = char_tok(g, fix).map_err(|e| format!("{what}: construction failed: {e}"))?; &built } };
+            let r = std::panic::catch_unwind(std::panic::AssertUnwindSafe(|| t.tokenize(text, ignore)));
+            let tok = match r { Err(_) => return Err(format!("{what} panics")), Ok(Err(e)) => return Err(format!("{what} failed: {e}")), Ok(Ok(t)) => t };
+            let unk = t.token_to_id("<unk>").ok_or("no unk id")?;
+            let mut want: Vec<u32> = t.prefix_token_ids().to_vec();
+            let mut in_alphabet = true;
+            let segs: Vec<(bool, &str)> = if ignore { vec![(false, text)] } else { segments(text, &toks) };
+            for (is_special, seg) in segs {
+                if is_special { want.push(t.token_to_id(seg).ok_or("special id")?); continue; }
+                for c in CS::new(seg, g).chars() {
+                    let mut it = c.str.chars();
+                    let first = it.next().unwrap();
+                    let id = if it.next().is_none() { t.token_to_id(&first.to_string()).filter(|id| *id != unk) } else { None };
+                    match id { Some(id) => want.push(id), None => { in_alphabet = false; want.push(unk); } }
+                }
+            }
+            let n_inner = want.len() - t.prefix_token_ids().len();
+            want.extend(t.suffix_token_ids());
+            if tok.token_ids != want {
+                return Err(format!("{what} = {:?}, expected one id per character (unknown id {unk} outside the alphabet): {want:?}", tok.token_ids));
+            }
+            if in_alphabet {
+                let p = t.prefix_token_ids().len();
+                let back = t.de_tokenize(&tok.token_ids[p..p + n_inner], false).map_err(|e| format!("{what}: de_tokenize failed: {e}"))?;
+                if back != text { return Err(format!("{what}: decoding the ids gives {back:?}")); }
+            }
+            Ok(())
+        }
+
+        pub fn replay(input: &Value) -> Result<(), String> {
+            let b = |k: &str| input[k].as_bool().unwrap_or(false);
+            let text = input["text"].as_str().unwrap_or("");
+            if input["tokenizer"].as_str() == Some("char") { check_char(text, b("graphemes"), b("fix"), b("ignore")) }
+            else { check_byte(text, b("graphemes"), b("code_points"), b("pad_to"), b("fix"), b("meta"), b("ignore")) }
+        }
+
+        /// BOUND: every text of at most 3 pieces from the alphabet below, all byte-tokenizer configurations (2^6) and
+        /// character-tokenizer configurations (2^3)
+        pub const PIECES: [&str; 13] = ["a", "Z", " ", "\u{e4}", "e\u{301}", "\r\n", "\u{1f469}\u{200d}\u{1f469}", "<bos>", "<|sep|>", "[SEP]", "<", "|", "sep"];
+        pub fn search_all() -> (Vec<(Value, String, String)>, usize) {
+            let mut texts = vec![String::new()];
+            let mut frontier = vec![String::new()];
+            for _ in 0..3 {
+                let mut next = vec![];
+                for t in &frontier { for a in PIECES { next.push(format!("{t}{a}")); } }
+                texts.extend(next.iter().cloned());
+                frontier = next;
+            }
+            let mut found: Vec<(Value, String, String)> = vec![];
+            let mut cases = 0usize;
+            for m in 0u32..32 {
+                let f = |k: u32| m & (1 << k) != 0;
+                let tok = byte_tok(f(0), f(1), f(2), f(3), f(4)).ok();
+                for text in &texts {
+                    for ignore in [false, true] {
+                        cases += 1;
+                        if let Err(e) = check_byte_with(tok.as_ref(), text, f(0), f(1), f(2), f(3), f(4), ignore) {
+                            if !found.iter().any(|(_, _, c)| c == "byte") {
+                                found.push((json!({"tokenizer": "byte", "text": text, "graphemes": f(0), "code_points": f(1), "pad_to": f(2), "fix": f(3), "meta": f(4), "ignore": ignore}), e, "byte".to_string()));
+                            }
+                        }
+                    }
+                }
+            }
+            for m in 0u32..4 {
+                let f = |k: u32| m & (1 << k) != 0;
+                let tok = char_tok(f(0), f(1)).ok();
+                for text in &texts {
+                    for ignore in [false, true] {
+                        cases += 1;
+                        if let Err(e) = check_char_with(tok.as_ref(), text, f(0), f(1), ignore) {
+                            if !found.iter().any(|(_, _, c)| c == "char") {
+                                found.push((json!({"tokenizer": "char", "text": text, "graphemes": f(0), "fix": f(1), "ignore": ignore}), e, "char".to_string()));
+                            }
+                        }
+                    }
+                }
+            }
+            (found, cases)
+        }
+        pub fn search() -> Option<(Value, String)> { search_all().0.into_iter().next().map(|(i, e, _)| (i, e)) }
+    }
+
     // ------------------------------------------------------------------------------- C04
     mod c04 {
         use super::*;
@@ -505,12 +670,123 @@ mod probes {
         }
 
         pub fn replay(input: &Value) -> Result<(), String> {
+            match input["what"].as_str() {
+                Some("ws") => {
+                    let tr: Vec<(String, String, String)> = input["triples"].as_array().map(|a| a.iter().map(|x| (x[0].as_str().unwrap_or("").to_string(), x[1].as_str().unwrap_or("").to_string(), x[2].as_str().unwrap_or("").to_string())).collect()).unwrap_or_default();
+                    return check_ws(&tr, input["mode"].as_u64().unwrap_or(2) as usize, input["seq_avg"].as_bool().unwrap_or(true), input["beta"].as_f64().unwrap_or(1.0), input["graphemes"].as_bool().unwrap_or(true));
+                }
+                Some("spelling") => {
+                    return check_spelling(input["input"].as_str().unwrap_or(""), input["pred"].as_str().unwrap_or(""), input["target"].as_str().unwrap_or(""), input["seq_avg"].as_bool().unwrap_or(true), input["graphemes"].as_bool().unwrap_or(true)).map_err(|e| e.1);
+                }
+                _ => {}
+            }
             check(
                 input["tp"].as_u64().unwrap_or(0) as usize,
                 input["fp"].as_u64().unwrap_or(0) as usize,
                 input["fn_"].as_u64().unwrap_or(0) as usize,
                 input["beta"].as_f64().unwrap_or(1.0),
             )
+        }
+
+        // ---- whitespace_correction_f1 against an oracle built from the statement (set comparison of the selected operations)
+        use crate::metrics::{spelling_correction_f1, whitespace_correction_f1, WhitespaceCorrectionMode};
+        use crate::whitespace::{operations, Operation};
+
+        fn fbeta(tp: usize, fp: usize, fn_: usize, beta: f64) -> (f64, f64, f64) {
+            let p = tp as f64 / (tp + fp).max(1) as f64;
+            let r = tp as f64 / (tp + fn_).max(1) as f64;
+            let b2 = beta * beta;
+            (if p + r > 0.0 { (1.0 + b2) * p * r / (b2 * p + r) } else { 0.0 }, p, r)
+        }
+        fn mode_of(m: usize) -> WhitespaceCorrectionMode {
+            match m { 0 => WhitespaceCorrectionMode::Insertions, 1 => WhitespaceCorrectionMode::Deletions, _ => WhitespaceCorrectionMode::InsertionsAndDeletions }
+        }
+        fn selected(ops: &[Operation], m: usize) -> std::collections::BTreeSet<(usize, u8)> {
+            ops.iter().enumerate().filter_map(|(i, op)| match op {
+                Operation::Insert if m != 1 => Some((i, 1u8)),
+                Operation::Delete if m != 0 => Some((i, 2u8)),
+                _ => None,
+            }).collect()
+        }
+        pub fn check_ws(triples: &[(String, String, String)], m: usize, seq_avg: bool, beta: f64, g: bool) -> Result<(), String> {
+            let what = format!("whitespace_correction_f1({triples:?}, beta={beta}, sequence_averaged={seq_avg}, mode={m}, graphemes={g})");
+            let (i, p, t): (Vec<&str>, Vec<&str>, Vec<&str>) = (triples.iter().map(|x| x.0.as_str()).collect(), triples.iter().map(|x| x.1.as_str()).collect(), triples.iter().map(|x| x.2.as_str()).collect());
+            let r = std::panic::catch_unwind(std::panic::AssertUnwindSafe(|| whitespace_correction_f1(&i, &p, &t, beta, seq_avg, mode_of(m), g)));
+            let got = match r { Err(_) => return Err(format!("{what} panics")), Ok(Err(e)) => return Err(format!("{what} failed: {e}")), Ok(Ok((f, _))) => f };
+            let mut per = vec![];
+            for (inp, pred, tgt) in triples {
+                let gt = selected(&operations(inp, tgt, g).map_err(|e| e.to_string())?, m);
+                let pr = selected(&operations(inp, pred, g).map_err(|e| e.to_string())?, m);
+                per.push((gt.is_empty() && pr.is_empty(), gt.intersection(&pr).count(), pr.difference(&gt).count(), gt.difference(&pr).count()));
+            }
+            let want = if seq_avg {
+                let n = per.len().max(1) as f64;
+                let mut s = (0.0, 0.0, 0.0);
+                for &(e, tp, fp, fn_) in &per { let v = if e { (1.0, 1.0, 1.0) } else { fbeta(tp, fp, fn_, beta) }; s = (s.0 + v.0, s.1 + v.1, s.2 + v.2); }
+                (s.0 / n, s.1 / n, s.2 / n)
+            } else {
+                fbeta(per.iter().map(|x| x.1).sum(), per.iter().map(|x| x.2).sum(), per.iter().map(|x| x.3).sum(), beta)
+            };
+            for (a, b) in [(got.0, want.0), (got.1, want.1), (got.2, want.2)] {
+                if !a.is_finite() || (a - b).abs() > 1e-9 { return Err(format!("{what} = {got:?}, the set comparison of the selected operations gives {want:?}")); }
+            }
+            Ok(())
+        }
+        /// spelling_correction_f1: never panics, values finite in [0,1]; prediction == target scores no FP/FN
+        pub fn check_spelling(input: &str, pred: &str, target: &str, seq_avg: bool, g: bool) -> Result<(), (String, String)> {
+            let what = format!("spelling_correction_f1([{input:?}], [{pred:?}], [{target:?}], beta=1, sequence_averaged={seq_avg}, graphemes={g})");
+            let r = std::panic::catch_unwind(std::panic::AssertUnwindSafe(|| spelling_correction_f1(&[input], &[pred], &[target], 1.0, seq_avg, g)));
+            let words = |s: &str| s.split_whitespace().count();
+            let got = match r {
+                Err(_) => {
+                    // the pinned tree's documented defect: the prediction drops or adds whole words (no character of the
+                    // word survives / comes from the input), which _group_words' closing assertion does not allow for
+                    let class = if words(pred) == 0 || words(input) == 0 { "spelling-panic-empty-side" } else { "spelling-panic" };
+                    return Err((class.to_string(), format!("{what} panics")));
+                }
+                Ok(Err(e)) => return Err(("spelling-error".into(), format!("{what} failed: {e}"))),
+                Ok(Ok((f, _))) => f,
+            };
+            for v in [got.0, got.1, got.2] { if !v.is_finite() || !(0.0..=1.0).contains(&v) { return Err(("spelling-range".into(), format!("{what} = {got:?} is not finite in [0,1]"))); } }
+            // no false positives / negatives: P = R = tp / max(tp, 1), i.e. both 1 (and F = 1) or, with nothing counted as corrected, both 0
+            if pred == target && got != (1.0, 1.0, 1.0) && got != (0.0, 0.0, 0.0) { return Err(("spelling-identity".into(), format!("{what} = {got:?}, a prediction equal to the target must have no false positives or negatives"))); }
+            // an unchanged prediction of an erroneous input has zero true positives (micro averaging: recall = tp / max(tp + fn, 1))
+            if !seq_avg && pred == input && input != target && got.2 != 0.0 { return Err(("spelling-unchanged".into(), format!("{what} = {got:?}, an unchanged prediction must have zero true positives"))); }
+            Ok(())
+        }
+
+        pub fn search_all() -> (Vec<(Value, String, String)>, usize) {
+            let mut found: Vec<(Value, String, String)> = vec![];
+            let mut cases = 0usize;
+            // whitespace: inputs = the non-whitespace text "abcd" with every placement of single spaces
+            let base = ["a", "b", "c", "d"];
+            let variants: Vec<String> = (0u32..8).map(|m| { let mut s = String::new(); for (k, c) in base.iter().enumerate() { if k > 0 && m & (1 << (k - 1)) != 0 { s.push(' '); } s.push_str(c); } s }).collect();
+            let mut triples = vec![];
+            for i in &variants { for p in &variants { for t in &variants { triples.push((i.clone(), p.clone(), t.clone())); } } }
+            for m in 0..3usize { for seq_avg in [true, false] { for g in [true, false] { for beta in [1.0, 0.5] {
+                for (k, tr) in triples.iter().enumerate() {
+                    for batch in [vec![tr.clone()], vec![tr.clone(), triples[(k * 31 + 7) % triples.len()].clone()]] {
+                        cases += 1;
+                        if let Err(e) = check_ws(&batch, m, seq_avg, beta, g) {
+                            if !found.iter().any(|(_, _, c)| c == "ws-counts") {
+                                let b: Vec<Vec<String>> = batch.iter().map(|x| vec![x.0.clone(), x.1.clone(), x.2.clone()]).collect();
+                                found.push((json!({"what": "ws", "triples": b, "mode": m, "seq_avg": seq_avg, "graphemes": g, "beta": beta}), e, "ws-counts".to_string()));
+                            }
+                        }
+                    }
+                }
+            } } } }
+            // spelling: sentences over the words {ab, cd, abcd, x}
+            let sents = ["", "ab", "ab cd", "abcd", "ab cd x", "a b cd", "x", "ab x", "abcdx"];
+            for i in sents { for p in sents { for t in sents { for seq_avg in [true, false] { for g in [true, false] {
+                cases += 1;
+                if let Err((class, e)) = check_spelling(i, p, t, seq_avg, g) {
+                    if !found.iter().any(|(_, _, c)| *c == class) {
+                        found.push((json!({"what": "spelling", "input": i, "pred": p, "target": t, "seq_avg": seq_avg, "graphemes": g}), e, class));
+                    }
+                }
+            } } } } }
+            (found, cases)
         }
 
         pub fn search() -> Option<(Value, String)> {
@@ -679,26 +955,233 @@ mod probes {
         }
     }
 
+    // ------------------------------------------------------------------------------- C17
+    mod c17 {
+        use super::*;
+        use crate::data::loading::Tensorize;
+        use crate::data::{TensorizedTrainTaskInput, TrainData, TrainItem, TrainTaskInput};
+        use crate::tokenization::*;
+        use crate::unicode::CS;
+        use numpy::ndarray::{Array1, Array2};
+
+        fn tok(g: bool, code_points: bool, fix: bool, sum: bool) -> anyhow::Result<ByteTokenizer> {
+            ByteTokenizer::new(
+                ByteTokenizerConfig { use_graphemes: g, pad_to_multiple_of: None,
+                    groups: if code_points { ByteGroups::CodePoints } else { ByteGroups::Bytes },
+                    aggregation: if sum { GroupAggregation::Sum } else { GroupAggregation::Mean } },
+                SpecialConfig { pad: "<pad>".to_string(), tokens: vec!["<unk>".into(), "<bos>".into(), "<eos>".into(), "<pad>".into()],
+                    prefix: if fix { vec!["<bos>".into()] } else { vec![] }, suffix: if fix { vec!["<eos>".into()] } else { vec![] } },
+            )
+        }
+        fn n_specials(text: &str) -> (usize, String) {
+            let mut rest = text.to_string();
+            let mut n = 0;
+            for t in ["<unk>", "<bos>", "<eos>", "<pad>"] { n += rest.matches(t).count(); rest = rest.replace(t, "\u{0}"); }
+            (n, rest)
+        }
+
+        /// groups partition the ids: nested lengths sum to the number of ids, one group per character / special / prefix / suffix
+        fn grouping_of(t: &ByteTokenizer, text: &str, what: &str) -> Result<(Vec<u32>, Grouping), String> {
+            let r = std::panic::catch_unwind(std::panic::AssertUnwindSafe(|| t.tokenize(text, false)));
+            let tk = match r { Err(_) => return Err(format!("{what}: tokenize({text:?}) panics")), Ok(Err(e)) => return Err(format!("{what}: tokenize({text:?}) failed: {e}")), Ok(Ok(t)) => t };
+            match tk.info {
+                TokenizationInfo::TokenGroups(m) => {
+                    if m.len() != 1 { return Err(format!("{what}: {} groupings for {text:?}", m.len())); }
+                    Ok((tk.token_ids, m.into_iter().next().unwrap().1))
+                }
+                _ => Err(format!("{what}: tokenize({text:?}) returned no token groups")),
+            }
+        }
+        pub fn check_groups(text: &str, g: bool, code_points: bool, fix: bool, sum: bool) -> Result<(), String> {
+            let what = format!("ByteTokenizer(graphemes={g}, code_point_groups={code_points}, prefix/suffix={fix}, sum={sum})");
+            let t = tok(g, code_points, fix, sum).map_err(|e| e.to_string())?;
+            let (ids, (groups, _)) = grouping_of(&t, text, &what)?;
+            let total: usize = groups.iter().map(|x| x.len()).sum();
+            if total != ids.len() { return Err(format!("{what}: group lengths of {text:?} sum to {total}, but there are {} token ids", ids.len())); }
+            let (ns, rest) = n_specials(text);
+            let chars = CS::new(&rest, g).chars().filter(|c| c.str != "\u{0}").count();
+            let want = chars + ns + if fix { 2 } else { 0 };
+            if groups.len() != want { return Err(format!("{what}: {} groups for {text:?}, expected one per character/special/prefix/suffix = {want}", groups.len())); }
+            Ok(())
+        }
+
+        pub fn check_sparse(texts: &[&str], g: bool, code_points: bool, fix: bool, sum: bool) -> Result<(), String> {
+            let what = format!("sparse matrix of {texts:?} with ByteTokenizer(graphemes={g}, code_point_groups={code_points}, prefix/suffix={fix}, sum={sum})");
+            let t = tok(g, code_points, fix, sum).map_err(|e| e.to_string())?;
+            let mut gs = vec![];
+            let mut lengths = vec![];
+            for x in texts { let (ids, gr) = grouping_of(&t, x, &what)?; lengths.push(ids.len()); gs.push(gr); }
+            let refs: Vec<&Grouping> = gs.iter().collect();
+            let r = std::panic::catch_unwind(std::panic::AssertUnwindSafe(|| token_groups_to_sparse_coo_matrix(&refs, &lengths)));
+            let m = match r { Err(_) => return Err(format!("{what}: panics")), Ok(Err(e)) => return Err(format!("{what}: failed: {e}")), Ok(Ok(m)) => m };
+            let stride: usize = lengths.iter().sum();
+            if m.indices.shape() != [3, stride] || m.values.len() != stride { return Err(format!("{what}: {} entries for {stride} tokens", m.values.len())); }
+            let want_size = vec![texts.len(), gs.iter().map(|x| x.0.len()).max().unwrap_or(0), lengths.iter().max().copied().unwrap_or(0)];
+            if m.size != want_size { return Err(format!("{what}: size {:?}, expected [batch, max groups, max tokens] = {want_size:?}", m.size)); }
+            let mut seen = std::collections::HashSet::new();
+            let mut sums: HashMap<(i32, i32), f32> = HashMap::new();
+            for k in 0..stride {
+                let (b, gi, ti) = (m.indices[[0, k]], m.indices[[1, k]], m.indices[[2, k]]);
+                if b < 0 || gi < 0 || ti < 0 || b as usize >= m.size[0] || gi as usize >= m.size[1] || ti as usize >= m.size[2] || ti as usize >= lengths[b as usize] {
+                    return Err(format!("{what}: entry {k} = ({b},{gi},{ti}) outside the declared size {:?}", m.size));
+                }
+                if !seen.insert((b, ti)) { return Err(format!("{what}: token ({b},{ti}) has more than one entry")); }
+                if sum && m.values[k] != 1.0 { return Err(format!("{what}: weight {} under sum aggregation", m.values[k])); }
+                *sums.entry((b, gi)).or_insert(0.0) += m.values[k];
+            }
+            if !sum {
+                for ((b, gi), s) in sums { if (s - 1.0).abs() > 1e-4 { return Err(format!("{what}: weights of group ({b},{gi}) sum to {s}")); } }
+            }
+            Ok(())
+        }
+
+        fn row_ok<T: PartialEq + Copy + std::fmt::Debug>(m: &Array2<T>, b: usize, item: &[T], pad: T) -> bool {
+            item.len() <= m.ncols() && (0..m.ncols()).all(|j| m[[b, j]] == if j < item.len() { item[j] } else { pad })
+        }
+        /// padded id / label matrices: each item's values followed only by padding, reported lengths are the true lengths
+        pub fn check_tensorize(kind: usize, lens: &[(usize, usize)]) -> Result<(), String> {
+            let what = format!("tensorize(kind={kind}, (input, target) lengths {lens:?})");
+            let ids = |n: usize, base: u32| -> Vec<u32> { (0..n as u32).map(|i| base + i).collect() };
+            let lab = |n: usize| -> Vec<i32> { (0..n as i32).map(|i| 10 + i).collect() };
+            let items: Vec<TrainItem> = lens.iter().enumerate().map(|(k, &(a, b))| {
+                let input = match kind {
+                    0 => TrainTaskInput::Classification { token_ids: ids(a, 1), pad_token_id: 999, label: k as i32 },
+                    1 => TrainTaskInput::SequenceClassification { token_ids: ids(a, 1), pad_token_id: 999, labels: lab(a) },
+                    2 => TrainTaskInput::Generation { token_ids: ids(a, 1), pad_token_id: 999, labels: lab(a) },
+                    _ => TrainTaskInput::ConditionalGeneration { token_ids: ids(a, 1), pad_token_id: 999, target_token_ids: ids(b, 500), target_pad_token_id: 998, labels: lab(b) },
+                };
+                TrainItem::new(TrainData::new("x".into(), None), input)
+            }).collect();
+            let r = std::panic::catch_unwind(std::panic::AssertUnwindSafe(|| items.tensorize()));
+            let out = match r { Err(_) => return Err(format!("{what} panics")), Ok(o) => o };
+            let lens_ok = |l: &Array1<usize>, want: Vec<usize>| l.to_vec() == want;
+            let n = lens.len();
+            let a_lens: Vec<usize> = lens.iter().map(|x| x.0).collect();
+            let b_lens: Vec<usize> = lens.iter().map(|x| x.1).collect();
+            let bad = |msg: &str| Err(format!("{what}: {msg}"));
+            match out {
+                TensorizedTrainTaskInput::Classification(t, l, labels) => {
+                    if kind != 0 { return bad("wrong variant"); }
+                    if t.nrows() != n || !lens_ok(&l, a_lens.clone()) { return bad(&format!("reported lengths {:?}, true lengths {a_lens:?}", l.to_vec())); }
+                    for b in 0..n { if !row_ok(&t, b, &ids(a_lens[b], 1), 999) { return bad("row is not the item's ids followed only by padding"); } }
+                    if labels.to_vec() != (0..n as i32).collect::<Vec<_>>() { return bad("labels"); }
+                }
+                TensorizedTrainTaskInput::SequenceClassification(t, l, labels) | TensorizedTrainTaskInput::Generation(t, l, labels) => {
+                    if kind != 1 && kind != 2 { return bad("wrong variant"); }
+                    if t.nrows() != n || !lens_ok(&l, a_lens.clone()) { return bad(&format!("reported lengths {:?}, true lengths {a_lens:?}", l.to_vec())); }
+                    for b in 0..n {
+                        if !row_ok(&t, b, &ids(a_lens[b], 1), 999) { return bad("id row is not the item's ids followed only by padding"); }
+                        if !row_ok(&labels, b, &lab(a_lens[b]), -1) { return bad("label row is not the item's labels followed only by -1"); }
+                    }
+                }
+                TensorizedTrainTaskInput::ConditionalGeneration(t, l, tt, tl, labels) => {
+                    if kind != 3 { return bad("wrong variant"); }
+                    if t.nrows() != n || !lens_ok(&l, a_lens.clone()) { return bad(&format!("reported lengths {:?}, true lengths {a_lens:?}", l.to_vec())); }
+                    if !lens_ok(&tl, b_lens.clone()) { return bad(&format!("reported target lengths {:?}, true lengths {b_lens:?}", tl.to_vec())); }
+                    for b in 0..n {
+                        if !row_ok(&t, b, &ids(a_lens[b], 1), 999) { return bad("id row"); }
+                        if !row_ok(&tt, b, &ids(b_lens[b], 500), 998) { return bad("target id row"); }
+                        if !row_ok(&labels, b, &lab(b_lens[b]), -1) { return bad("label row"); }
+                    }
+                }
+            }
+            Ok(())
+        }
+
+        pub fn replay(input: &Value) -> Result<(), String> {
+            let b = |k: &str| input[k].as_bool().unwrap_or(false);
+            match input["what"].as_str().unwrap_or("") {
+                "groups" => check_groups(input["text"].as_str().unwrap_or(""), b("graphemes"), b("code_points"), b("fix"), b("sum")),
+                "sparse" => {
+                    let texts: Vec<&str> = input["texts"].as_array().map(|a| a.iter().filter_map(|x| x.as_str()).collect()).unwrap_or_default();
+                    check_sparse(&texts, b("graphemes"), b("code_points"), b("fix"), b("sum"))
+                }
+                _ => {
+                    let lens: Vec<(usize, usize)> = input["lens"].as_array().map(|a| a.iter().map(|p| (p[0].as_u64().unwrap_or(0) as usize, p[1].as_u64().unwrap_or(0) as usize)).collect()).unwrap_or_default();
+                    check_tensorize(input["kind"].as_u64().unwrap_or(0) as usize, &lens)
+                }
+            }
+        }
+
+        /// BOUND: texts of at most 3 pieces from {a, U+00E4, e+U+0301, CRLF, space, <bos>, flag} x 16 byte-tokenizer configs;
+        /// batches of 1..3 of those texts (first 40 texts) for the sparse matrix; tensorize: 4 kinds x batches of 1..3 items
+        /// with (input, target) lengths in {0,1,2,5}^2
+        pub const PIECES: [&str; 7] = ["a", "\u{e4}", "e\u{301}", "\r\n", " ", "<bos>", "\u{1f1e9}\u{1f1ea}"];
+        pub fn search_all() -> (Vec<(Value, String, String)>, usize) {
+            let mut texts = vec![String::new()];
+            let mut frontier = vec![String::new()];
+            for _ in 0..3 {
+                let mut next = vec![];
+                for t in &frontier { for a in PIECES { next.push(format!("{t}{a}")); } }
+                texts.extend(next.iter().cloned());
+                frontier = next;
+            }
+            let mut found: Vec<(Value, String, String)> = vec![];
+            let mut cases = 0usize;
+            let mut add = |found: &mut Vec<(Value, String, String)>, class: &str, input: Value, e: String| {
+                if !found.iter().any(|(_, _, c)| c == class) { found.push((input, e, class.to_string())); }
+            };
+            for m in 0u32..16 {
+                let f = |k: u32| m & (1 << k) != 0;
+                for t in &texts {
+                    cases += 1;
+                    if let Err(e) = check_groups(t, f(0), f(1), f(2), f(3)) {
+                        add(&mut found, "groups", json!({"what": "groups", "text": t, "graphemes": f(0), "code_points": f(1), "fix": f(2), "sum": f(3)}), e);
+                    }
+                }
+                let small: Vec<&str> = texts.iter().skip(1).step_by(9).take(12).map(|x| x.as_str()).collect();
+                for i in 0..small.len() { for j in 0..small.len() {
+                    for batch in [vec![small[i]], vec![small[i], small[j]], vec![small[j], small[i], small[(i + j) % small.len()]]] {
+                        cases += 1;
+                        if let Err(e) = check_sparse(&batch, f(0), f(1), f(2), f(3)) {
+                            add(&mut found, "sparse", json!({"what": "sparse", "texts": batch, "graphemes": f(0), "code_points": f(1), "fix": f(2), "sum": f(3)}), e);
+                        }
+                    }
+                } }
+            }
+            let ls = [0usize, 1, 2, 5];
+            let mut pairs = vec![];
+            for a in ls { for b in ls { pairs.push((a, b)); } }
+            for kind in 0..4usize {
+                for i in 0..pairs.len() { for j in 0..pairs.len() {
+                    for batch in [vec![pairs[i]], vec![pairs[i], pairs[j]], vec![pairs[j], pairs[i], pairs[(i * 7 + j) % pairs.len()]]] {
+                        cases += 1;
+                        if let Err(e) = check_tensorize(kind, &batch) {
+                            let lens: Vec<Vec<usize>> = batch.iter().map(|p| vec![p.0, p.1]).collect();
+                            add(&mut found, "tensorize", json!({"what": "tensorize", "kind": kind, "lens": lens}), e);
+                        }
+                    }
+                } }
+            }
+            (found, cases)
+        }
+        pub fn search() -> Option<(Value, String)> { search_all().0.into_iter().next().map(|(i, e, _)| (i, e)) }
+    }
+
     fn dispatch_replay(prop: &str, input: &Value) -> Result<(), String> {
         match prop {
+            "C01" => c01::replay(input),
             "C04" => c04::replay(input),
             "C12" => c12::replay(input),
             "C07" => c07::replay(input),
             "C15" => c15::replay(input),
             "C13" => c13::replay(input),
             "C14" => c14::replay(input),
+            "C17" => c17::replay(input),
             _ => Err(format!("no probe for {prop}")),
         }
     }
 
     fn dispatch_search(prop: &str) -> Option<(Value, String)> {
         match prop {
+            "C01" => c01::search(),
             "C04" => c04::search(),
             "C12" => c12::search(),
             "C07" => c07::search(),
             "C15" => c15::search(),
             "C13" => c13::search(),
             "C14" => c14::search(),
+            "C17" => c17::search(),
             _ => None,
         }
     }
@@ -723,6 +1206,9 @@ mod probes {
                 // bounded exploration (labelled bounded in the evidence): every failing class with its first input
                 let (found, cases) = match prop.as_str() {
                     "C14" => c14::search_all(),
+                    "C01" => c01::search_all(),
+                    "C17" => c17::search_all(),
+                    "C13" => c13::search_all(),
                     _ => (vec![], 0),
                 };
                 for (input, e, class) in &found {
